@@ -118,9 +118,9 @@ def verdict(r):
 
 # ------------------------------------------------------------------ replay
 
-def replay_file(pid, path):
+def replay_file(pid, path, tier = 'quick'):
     """concrete replay in a fresh interpreter without any shim: returns (failed_labels, raw)"""
-    cmd = [PY, '-m', 'vf.cli', pid, '--replay', path, '--quiet']
+    cmd = [PY, '-m', 'vf.cli', pid, '--replay', path, '--quiet', '--tier', tier]
     env = dict(os.environ); env['PYTHONPATH'] = ROOT + os.pathsep + env.get('PYTHONPATH', ''); env.pop('VF_SYMX', None)
     try:
         p = subprocess.run(cmd, capture_output = True, text = True, timeout = 120, env = env, cwd = ROOT)
@@ -132,12 +132,18 @@ def replay_file(pid, path):
     if p.returncode not in (0, 1): return None, (p.stdout + p.stderr)[-2000:]
     return failed, (p.stdout + p.stderr)[-2000:]
 
-def do_replay(pid, path, quiet = False):
+def _obligations_of(mod, tier):
+    """obligations by id; an id that exists in both tiers (with other bounds) resolves to the given tier"""
+    other = 'thorough' if tier == 'quick' else 'quick'
+    obs = {o.id: o for o in mod.obligations(other)}
+    obs.update({o.id: o for o in mod.obligations(tier)})
+    return obs
+
+def do_replay(pid, path, quiet = False, tier = None):
     """entry for --replay: run the obligation named in the file concretely; exit 1 if a check fails"""
     rec = json.load(open(path))
     mod = load_prop(pid)
-    obs = {o.id: o for o in mod.obligations('thorough')}
-    obs.update({o.id: o for o in mod.obligations('quick')})
+    obs = _obligations_of(mod, rec.get('tier') or tier or 'quick')
     ob = obs.get(rec['obligation'])
     if ob is None:
         print('unknown obligation', rec['obligation']); return 2
@@ -211,9 +217,11 @@ def main(pid, tier, jobs = None, only = None, seed = None):
     obs = mod.obligations(tier)
     if only: obs = [o for o in obs if any(s in o.id for s in only)]
     rnd = random.Random(seed); order = list(obs)
-    heavy = sorted(order, key = lambda o: (o.engine != 'gate', -o.budget_s))          # gates, then long obligations first
-    # wall budget of the tier: quick has none; thorough defaults to 420 s (VERIF_TIER_WALL=<seconds>, 0 = unlimited) - what does not fit is reported as not started, never as held
-    tier_wall = float(os.environ.get('VERIF_TIER_WALL', '0' if tier == 'quick' else '420'))
+    # wall budget of the tier: quick has none; thorough defaults to 1200 s (VERIF_TIER_WALL=<seconds>, 0 = unlimited) - what does not fit is reported as not started, never as held
+    tier_wall = float(os.environ.get('VERIF_TIER_WALL', '0' if tier == 'quick' else '1200'))
+    # without a wall budget: gates, then long obligations first (best packing); with one: gates, then the cheap obligations first, so that the budget is spent on
+    # as many complete verdicts as possible and the deepest obligations take whatever is left
+    heavy = sorted(order, key = lambda o: (o.engine != 'gate', o.budget_s if tier_wall else -o.budget_s))
     log('== %s tier=%s obligations=%d jobs=%d seed=%d known-findings=%s%s' % (pid, tier, len(obs), jobs, seed, sorted(known), ' tier-wall=%ds' % tier_wall if tier_wall else ''))
     results = run_obligations(heavy, jobs, seed, sorted(known), log, deadline = (t0 + tier_wall) if tier_wall else None)
     byid = {r['id']: r for r in results}
@@ -227,9 +235,9 @@ def main(pid, tier, jobs = None, only = None, seed = None):
         for f in r.get('failures', []):
             nrep += 1
             path = os.path.join(OUT, 'replays', pid, '%s.%d.json' % (ob.id.replace('/', '_'), nrep))
-            rec = dict(property = pid, obligation = ob.id, label = f['label'], model = f['model'], desc = ob.desc)
+            rec = dict(property = pid, obligation = ob.id, label = f['label'], model = f['model'], desc = ob.desc, tier = tier)
             json.dump(rec, open(path, 'w'), indent = 1, sort_keys = True)
-            failed, raw = replay_file(pid, path)
+            failed, raw = replay_file(pid, path, tier)
             f['replay'] = path
             if failed is None:
                 log('  replay harness error for %s: %s' % (ob.id, raw[-400:])); harness_error = True; r['verdict'] = 'crashed'; continue
@@ -249,12 +257,12 @@ def main(pid, tier, jobs = None, only = None, seed = None):
                 os.remove(path)
     # conformance: models of explored paths and the reachability witnesses are pushed through the real code concretely.  A check that
     # fails there is a reproduced violation by definition (real code + oracle on a concrete input), whatever the symbolic verdict was.
-    conf = conformance(pid, obs, byid, log)
+    conf = conformance(pid, obs, byid, log, tier = tier)
     for m in conf['mismatch']:
         if 'obligation' not in m: harness_error = True; continue
         ob = [o for o in obs if o.id == m['obligation']][0]; r = byid[ob.id]; nrep += 1
         path = os.path.join(OUT, 'replays', pid, '%s.%d.json' % (ob.id.replace('/', '_'), nrep))
-        json.dump(dict(property = pid, obligation = ob.id, label = m['failed'][0], model = m['model'], desc = ob.desc, source = 'witness/conformance replay'),
+        json.dump(dict(property = pid, obligation = ob.id, label = m['failed'][0], model = m['model'], desc = ob.desc, source = 'witness/conformance replay', tier = tier),
                   open(path, 'w'), indent = 1, sort_keys = True)
         cls = None
         if ob.classify:
@@ -286,7 +294,7 @@ def main(pid, tier, jobs = None, only = None, seed = None):
         log('HARNESS-ERROR (no verdict): see crashed / gate-failed obligations above'); return 2
     return 0
 
-def conformance(pid, obs, byid, log, per_ob = 2):
+def conformance(pid, obs, byid, log, per_ob = 2, tier = 'quick'):
     """push models of proved paths through the real code concretely: every check must pass there too"""
     items = []
     for ob in obs:
@@ -300,7 +308,7 @@ def conformance(pid, obs, byid, log, per_ob = 2):
     json.dump(items, open(path, 'w'))
     env = dict(os.environ); env['PYTHONPATH'] = ROOT + os.pathsep + env.get('PYTHONPATH', '')
     try:
-        p = subprocess.run([PY, '-m', 'vf.cli', pid, '--conformance', path], capture_output = True, text = True, timeout = 900, env = env, cwd = ROOT)
+        p = subprocess.run([PY, '-m', 'vf.cli', pid, '--conformance', path, '--tier', tier], capture_output = True, text = True, timeout = 900, env = env, cwd = ROOT)
         for line in p.stdout.splitlines():
             if line.startswith('CONFORMANCE '): out.update(json.loads(line[len('CONFORMANCE '):]))
         if p.returncode != 0 and not out['replayed']:
@@ -312,9 +320,9 @@ def conformance(pid, obs, byid, log, per_ob = 2):
     for m in out['mismatch']: log('  concrete replay of a path model / witness FAILS on the real code: %s' % (m,))
     return out
 
-def do_conformance(pid, path):
+def do_conformance(pid, path, tier = 'quick'):
     items = json.load(open(path)); mod = load_prop(pid)
-    obs = {o.id: o for o in mod.obligations('thorough')}; obs.update({o.id: o for o in mod.obligations('quick')})
+    obs = _obligations_of(mod, tier)
     n = 0; bad = []
     for it in items:
         ob = obs[it['obligation']]
@@ -352,7 +360,7 @@ def build_evidence(pid, tier, seed, mod, obs, results, counts, conf, spurious, n
                    'evaluations = solver queries discharged; non-trivial = the path condition constrains at least one symbolic input',
             samples = samples, exhaustive = False,
             obligations = nprop, discharged = proved, verdicts = counts, spurious_models = spurious,
-            tier_wall_budget_s = float(os.environ.get('VERIF_TIER_WALL', '0' if tier == 'quick' else '420')), not_started = sum(1 for r in results if r.get('not_started')),
+            tier_wall_budget_s = float(os.environ.get('VERIF_TIER_WALL', '0' if tier == 'quick' else '1200')), not_started = sum(1 for r in results if r.get('not_started')),
             solver_seconds = round(tot('solver_s'), 2), solver_queries = tot('queries'), paths = tot('paths'),
             functions_encoded = src_hashes(getattr(mod, 'FUNCS', [])), bounds = getattr(mod, 'BOUNDS', {}), outside_claim = getattr(mod, 'OUTSIDE', []),
             known_findings_hit = sorted(known_hit), conformance = conf, obligations_detail = obl,
